@@ -53,7 +53,7 @@ def replay(case):
     return run_shard(case)["failures"]
 
 
-def build_result(fs, S2, iscsd, pts):
+def build_result(fs, S2, iscsd, pts, m2=None):
     """pts: list of (g2, n, XX, YY, arg)."""
     from speckit.analysis import SpectrumResult
 
@@ -67,7 +67,7 @@ def build_result(fs, S2, iscsd, pts):
     d = {"f": np.arange(1, m + 1, dtype=float), "r": np.ones(m), "b": np.arange(1, m + 1, dtype=float),
          "L": np.full(m, 16, dtype=np.int64), "K": n.copy(), "navg": n.copy(), "D": [np.arange(1)] * m,
          "O": np.zeros(m), "XX": XX, "YY": YY, "XY": XY, "S12": np.full(m, 9.0), "S2": np.full(m, S2),
-         "M2": np.zeros(m), "compute_t": np.zeros(m)}
+         "M2": np.zeros(m) if m2 is None else np.asarray(m2, dtype=float), "compute_t": np.zeros(m)}
     return SpectrumResult(d, {}, iscsd, fs)
 
 
@@ -174,10 +174,10 @@ def _ana(shard):
         results = [(r, nD, "full")]
         for j in (0, len(nD) // 2, len(nD) - 1):
             sb = an.compute_single_bin(float(pf["f"][j]), L=int(pf["L"][j]))
-            results.append((sb, np.array([len(sb._data["D"][0])], dtype=float), f"single[{j}]"))
+            results.append((sb, np.array([len(sb.D[0])], dtype=float), f"single[{j}]"))
         for Ls in (2, 3, 10, N):  # short segments: more requested averages than start positions at high overlap
             sb = an.compute_single_bin(0.4, L=Ls)
-            results.append((sb, np.array([len(sb._data["D"][0])], dtype=float), f"single[L={Ls}]"))
+            results.append((sb, np.array([len(sb.D[0])], dtype=float), f"single[L={Ls}]"))
         for rr, nd, tag in results:
             out["evals"] += len(nd)
             out["nontrivial"] += int(np.count_nonzero(nd > 1))
